@@ -5,22 +5,28 @@ import RsMatterVerif.Props.C10
 /-!
 # C20 — unfinished or hostile handshakes cannot leak or exhaust node resources for good
 
-Theorems over `Model/Transport.lean`:
-* `eviction_never_takes_live_exchange`: the session chosen for eviction is not reserved and carries
-  no exchange — for every table and time;
-* `eviction_finds_idle`: if some session is unreserved, without exchanges, and expired or last used
-  strictly before now, eviction finds a session;
-* `full_table_refuses` / `room_admits`: `Sessions::add` answers `NoSpaceSessions` (⇒ the transport
-  answers busy or evicts) exactly when the table is full; `evict_then_room`: after removing the
-  evicted session a new one is admitted;
-* `abandoned_reservation_released`, `complete_makes_live`: dropping a `ReservedSession` without
-  `complete` takes one session out of the table; the (repaired) `complete` clears the flag at once:
-  the session, if still in the table, is not reserved afterwards;
-* `owner_drop_frees_or_marks`: an exchange dropped by its owner is freed or marked dropped, and
-  (C10 `closer_finds_dropped`) the closer misses no dropped exchange — together: at quiescence no
-  exchange slot stays occupied by an owned or dropped exchange;
-* `rendezvous_released_on_cancel`: the single-slot rendezvous guard resets the slot to idle when its
-  waiter is dropped (model of `MdnsResolveGuard::drop` / `MdnsBrowseGuard::drop`).
+**Run-level theorems** (over all histories of the transition systems `Model/Handshake.lean` and
+`Model/Rendezvous.lean`; invariants proved by induction over the history in `Lemmas/Handshake.lean`,
+`Lemmas/Rendezvous.lean`):
+* `reserved_iff_guard`, `reach_capacity_and_ids`, `abandoned_reservation_released`,
+  `no_reserved_at_quiescence`, `guarded_sessions_survive_eviction`, `idle_session_admits_reservation`
+  (hypothesis of every step: the 28-bit session id counter has not wrapped, `Handshake.noWrap`);
+* `rendezvous_single_occupancy`, `placed_is_owner`, `rendezvous_released_on_cancel`,
+  `rendezvous_idle_when_no_waiter`, `queued_places_when_free`, `queued_places_after_cancel`;
+* `marker_expiry_bounded`, `dead_owner_marker_not_live`, `expired_marker_of_dead_owner_is_cleared`,
+  `marker_released_at_quiescence`.
+
+**Partial** (the full statement is a `def … : Prop`, the extra hypothesis is named in the docstring):
+`live_handles_survive_eviction_partial` (`live_handles_survive_eviction_full`, hypothesis
+`HandlesOccupied` for the state before the step), `quiescent_no_leak_partial`
+(`quiescent_no_leak_full`, hypotheses `OwnedHaveHandles` and the C10 statement `NoPending`).
+`two_slots_needed`: the open finding `C20-handshake-needs-two-slots` on the model.
+
+**One-step facts** about single functions of `Model/Transport.lean` on arbitrary tables:
+`eviction_never_takes_live_exchange`, `eviction_finds_idle`, `full_table_refuses`, `room_admits`,
+`evict_then_room`, `remove_found_shrinks`, `reserve_marks`, `complete_makes_live`,
+`owner_drop_frees_or_marks`, `queued_cancel_keeps_slot`, `marker_none_after_clear_or_fail`,
+`handler_drop_keeps_marker`; and `C10.closer_finds_dropped` (imported).
 -/
 namespace C20
 open Transport
